@@ -54,12 +54,15 @@ def rule(inp, acts=(), back=(), ahead=()):
             "acts": [{"idx": i, "lk": l} for i, l in acts]}
 
 
-def ctx(rules, fmt=3, chain=False, trunc=None):
+def ctx(rules, fmt=3, chain=False, trunc=None, zero=None):
     """trunc (format 2 only): the rule-set array is cut off before the class of this glyph set, as a
     reader can deliver it; the rules starting with that class then do not exist"""
     d = {"k": "ctx", "fmt": fmt, "chain": chain, "rules": rules}
     if trunc is not None:
         d["trunc"] = sorted(trunc)
+    if zero is not None:
+        # format 2: these sets are class 0 of their class definition (glyphs left out of it)
+        d["zero"] = {k: sorted(v) for k, v in zero.items()}
     return d
 
 
@@ -348,6 +351,29 @@ def family_ctxnest(cat):
                             lookup([single({2: 5, 6: 1})]), lookup([single({2: 6})])])
 
 
+def family_ctxskip(cat):
+    """a nested ligature lookup with its own filter under a parent that matches the glyphs the ligature
+    skips: positions of the parent's later actions must track the removal (testcases section 3)"""
+    lig3 = lambda: lookup([lig({1: [([1, 1], 3), ([1], 6)]})], flags=["mark"])
+    lig2 = lambda: lookup([lig({1: [([1], 3)]})], flags=["mark"])
+    tgt = lambda: lookup([single({1: 5, 4: 2, 3: 6, 6: 3})])
+    pats = [[{1}, {4}, {1}, {4}, {1}], [{1}, {4}, {1}, {4}, {1}, {1, 4}], [{1}, {4}, {4}, {1}, {1}], [{1}, {1}, {4}, {1}],
+            [{1}, {4}, {1}]]
+    for fmt in (1, 2, 3):
+        for p in pats:
+            if fmt == 1 and any(len(x) != 1 for x in p):
+                continue
+            if fmt == 2 and not _partition_ok([sorted(x) for x in p]):
+                continue
+            for child in (lig3, lig2):
+                for idx in range(len(p)):
+                    cat.add("ctxskip", [lookup([ctx([rule(p, [(0, 2), (idx, 3)])], fmt=fmt)]), child(), tgt()])
+                cat.add("ctxskip", [lookup([ctx([rule(p, [(len(p) - 1, 3), (0, 2), (1, 3)])], fmt=fmt)]), child(), tgt()])
+    for p in pats[:3]:
+        cat.add("ctxskip", [lookup([ctx([rule(p, [(0, 2), (2, 3)], back=[{4}], ahead=[{4}])], fmt=3, chain=True)]),
+                            lig3(), tgt()])
+
+
 def family_chain(cat):
     """GSUB 6 in all three formats with backtrack/lookahead, and GSUB 8"""
     shapes = [
@@ -368,6 +394,24 @@ def family_chain(cat):
                         cat.add("chain", [lookup([ctx([rule(sh["inp"], [(idx, 2)], back=sh["back"],
                                                             ahead=sh["ahead"])], fmt=fmt, chain=True)], **fl),
                                           CHILDREN[kid]()])
+    # format 2 with class 0 ("every glyph not in the class definition" - here: the complement within
+    # the glyph universe 1..6) in backtrack / input / lookahead, under filters that make the first or
+    # last glyph of the string an ignored one
+    U = set(range(1, 7))
+    for fl in (dict(flags=["mark"]), dict(flags=["base"]), dict()):
+        for kid in ("single", "multi"):
+            zb = U - {2}
+            cat.add("chain0", [lookup([ctx([rule([{1}], [(0, 2)], back=[{2}]), rule([{1}], [(0, 3)], back=[zb])],
+                                           fmt=2, chain=True, zero={"back": zb})], **fl),
+                               CHILDREN[kid](), lookup([single({1: 5})])])
+            cat.add("chain0", [lookup([ctx([rule([{1}], [(0, 2)], ahead=[{2}]), rule([{1}], [(0, 3)], ahead=[zb])],
+                                           fmt=2, chain=True, zero={"ahead": zb})], **fl),
+                               CHILDREN[kid](), lookup([single({1: 5})])])
+            zi = U - {1, 2}
+            cat.add("chain0", [lookup([ctx([rule([{1}, {2}], [(0, 2)]), rule([{1}, zi], [(0, 3)])], fmt=2,
+                                           zero={"in": zi})], **fl), CHILDREN[kid](), lookup([single({1: 5})])])
+            cat.add("chain0", [lookup([ctx([rule([{1}, {2}], [(1, 2)], back=[zb, {2}], ahead=[{2}, zb])], fmt=2,
+                                           chain=True, zero={"back": zb, "ahead": zb})], **fl), CHILDREN[kid]()])
     # a child that ignores marks under a parent that does not, with lookahead in the child
     cat.add("chainchild", [lookup([ctx([rule([{1}, {4}, {2}], [(0, 2)])])]),
                            lookup([ctx([rule([{1}], [(0, 3)], ahead=[{2}])], chain=True)], flags=["mark"]),
@@ -452,7 +496,7 @@ def family_malformed(cat):
 
 FAMILIES = {
     "simple": family_simple, "lig": family_lig, "order": family_order, "ctx": family_ctx,
-    "chain": family_chain, "gpos": family_gpos, "malformed": family_malformed, "ctxnest": family_ctxnest,
+    "chain": family_chain, "gpos": family_gpos, "malformed": family_malformed, "ctxnest": family_ctxnest, "ctxskip": family_ctxskip,
 }
 
 
